@@ -1,5 +1,8 @@
+mod c04;
+mod c05;
 mod c06;
 mod c07;
+mod c16;
 mod c17;
 mod c18;
 mod c19;
@@ -42,6 +45,21 @@ fn main() {
         "c06" => {
             let rep = Report::new("C06", "model_checking");
             let cov = c06::run(&rep);
+            rep.finish(cov)
+        }
+        "c04" => {
+            let rep = Report::new("C04", "model_checking");
+            let cov = c04::run(&rep);
+            rep.finish(cov)
+        }
+        "c05" => {
+            let rep = Report::new("C05", "model_checking");
+            let cov = c05::run(&rep);
+            rep.finish(cov)
+        }
+        "c16" => {
+            let rep = Report::new("C16", "model_checking");
+            let cov = c16::run(&rep);
             rep.finish(cov)
         }
         _ => {
